@@ -1,0 +1,162 @@
+//! Verification hook H6 (compiled only with `--cfg salsa_rs_salsa_verif`): a trace of the
+//! atomic steps of cancellation (token, cancellation flag, clone counter, cancellation count)
+//! and of page allocation, in the alphabet of the external Coq models.
+//!
+//! Observation only: every call site is an added `emit` next to the operation it reports.
+//! The sink is installed by the harness; it uses `std` primitives only (never shuttle's), so
+//! that emitting is not a scheduling point of its own.
+
+use std::sync::RwLock;
+
+/// One atomic step. Handles are identified by the address of their cancellation token,
+/// everything else by plain integers.
+#[derive(Debug, Clone, Copy, PartialEq, Eq)]
+pub enum Ev {
+    // --- token (zalsa_local.rs, attach.rs, execute.rs, zalsa.rs) ---
+    /// `CancellationToken::set_cancellation_disabled`: argument and the byte before the update.
+    TokSetDisabled { handle: usize, disabled: bool, prev: u8 },
+    /// `DisableLocalCancellationGuard::new` is about to call `set_cancellation_disabled(true)`.
+    DisGuardNew,
+    /// `DisableLocalCancellationGuard::drop` is about to restore the saved bit.
+    DisGuardDrop,
+    /// `ZalsaLocal::uncancel`.
+    TokReset { handle: usize },
+    /// `DbGuard::new` of `attach` / `attach_allow_change`.
+    Attach { handle: usize, attached_here: bool, allow_change: bool },
+    /// `DbGuard::drop`.
+    Detach { attached_here: bool },
+    /// `Zalsa::unwind_if_revision_cancelled`: what the two tests decided —
+    /// 0 continue, 1 `Cancelled::Local`, 2 `Cancelled::PendingWrite` (emitted before throwing).
+    Check { handle: usize, outcome: u8 },
+    // --- handles and the writer (storage.rs, runtime.rs) ---
+    /// `StorageHandle::clone` after `*clones += 1`.
+    CloneBegin,
+    /// `StorageHandle::clone` after `zalsa_impl.clone()`.
+    CloneEnd,
+    /// `StorageHandle` is being dropped (before its fields: `Arc<Zalsa>` first).
+    DropBegin,
+    /// `CoordinateDrop::drop`, just before `*clones -= 1`.
+    DropCoord,
+    /// `cancel_others`: after `CancellationFlagGuard::new`.
+    SetFlag,
+    /// `cancel_others`: the wait loop has exited (lock still held).
+    Waited { clones: usize },
+    /// `cancel_others`: after the flag guard has been dropped.
+    ClearFlag,
+    /// `cancel_others`: after `bump_cancellation_count` (and `new_revision` on overflow).
+    Bump { overflow: bool, count: u8, rev: usize },
+    // --- provisional-memo stamps (function.rs, execute.rs, fetch.rs, maybe_changed_after.rs) ---
+    /// A memo that may be provisional is inserted.
+    Stamp { verified_at: usize, count: u8, iteration: u8, has_value: bool },
+    /// `execute_maybe_iterate`, an old memo exists: what the seeding decision reads.
+    PrevIterIn {
+        cur_rev: usize,
+        cur_count: u8,
+        verified_at: usize,
+        stamp: u16,
+        has_value: bool,
+        is_head: bool,
+    },
+    /// ... and what it decided (not emitted if `previous_iteration` threw `PropagatedPanic`):
+    /// is the old memo kept, is it reused as the last provisional value, the starting stamp.
+    PrevIterOut { kept: bool, reuse: bool, iteration: u16 },
+    /// `fetch_cold_cycle`, a memo exists: what the three tests read.
+    ColdCycleIn {
+        cur_rev: usize,
+        cur_count: u8,
+        verified_at: usize,
+        stamp: u16,
+        has_value: bool,
+        may_be_provisional: bool,
+        is_head: bool,
+    },
+    /// ... the old provisional memo is returned.
+    ColdCycleReuse,
+    /// ... a fresh initial memo with this stamp is inserted (also emitted when no memo existed).
+    ColdCycleInitial { stamp: u16 },
+    /// `validate_may_be_provisional`: the cancellation-count gate.
+    CountGate { cur_count: u8, stamp: u16, pass: bool },
+    // --- allocation (table.rs, tracked_struct.rs, interned.rs) ---
+    Push { ingredient: u32, page: usize },
+    Take { ingredient: u32, page: Option<usize> },
+    Record { ingredient: u32, page: usize },
+    Load { page: usize, index: usize, full: bool },
+    Write { page: usize, index: usize },
+    Publish { page: usize, index: usize, id_index: u32 },
+    /// `tracked_struct::delete_entity`: `free_list.push(id)`.
+    Free { ingredient: u32, index: u32, generation: u32 },
+    /// `tracked_struct::allocate` took `id` from the free list; `new_generation` is `None` if the
+    /// slot was leaked because the generation would overflow.
+    Reuse { ingredient: u32, index: u32, generation: u32, new_generation: Option<u32> },
+    /// interned slot reuse: generation bump of a stale slot.
+    InternReuse { index: u32, generation: u32, new_generation: u32 },
+}
+
+/// The sink receives the event and whether the emitting thread may be descheduled here
+/// (`false` inside a critical section of a salsa-internal lock).
+type Sink = Box<dyn Fn(&Ev, bool) + Send + Sync + 'static>;
+
+static SINK: RwLock<Option<Sink>> = RwLock::new(None);
+
+/// Install (or remove) the sink. Call between runs only.
+pub fn set_sink(sink: Option<Sink>) {
+    *SINK.write().unwrap_or_else(|e| e.into_inner()) = sink;
+}
+
+#[inline]
+pub(crate) fn emit(ev: Ev) {
+    emit_with(ev, true);
+}
+
+/// Emit from inside a critical section.
+#[inline]
+pub(crate) fn emit_locked(ev: Ev) {
+    emit_with(ev, false);
+}
+
+fn emit_with(ev: Ev, may_yield: bool) {
+    if let Ok(guard) = SINK.read()
+        && let Some(sink) = guard.as_ref()
+    {
+        sink(&ev, may_yield);
+    }
+}
+
+/// Emits its event when dropped (used to report the end of an expression-bodied function).
+pub(crate) struct EmitOnDrop(pub(crate) Ev);
+
+impl Drop for EmitOnDrop {
+    fn drop(&mut self) {
+        emit(self.0);
+    }
+}
+
+/// (current revision, cancellation count, cancellation flag)
+pub fn epoch(db: &dyn crate::Database) -> (usize, u8, bool) {
+    let runtime = db.zalsa().runtime();
+    (
+        runtime.current_revision().as_usize(),
+        runtime.cancellation_count(),
+        runtime.load_cancellation_flag(),
+    )
+}
+
+/// The identity under which `db`'s handle appears in token events.
+pub fn handle_of(db: &dyn crate::Database) -> usize {
+    db.zalsa_local().verif_handle()
+}
+
+/// The current token byte of `db`'s handle.
+pub fn token_byte(db: &dyn crate::Database) -> u8 {
+    db.zalsa_local().verif_token_byte()
+}
+
+/// `(PAGE_LEN, page count)` of the table.
+pub fn table_shape(db: &dyn crate::Database) -> (usize, usize) {
+    crate::table::verif_table_shape(db.zalsa().table())
+}
+
+/// Read a slot the way `Table::get` does its bounds check: `Some(allocated)` of the id's page.
+pub fn allocated_of(db: &dyn crate::Database, id: crate::Id) -> usize {
+    crate::table::verif_allocated_of(db.zalsa().table(), id)
+}
